@@ -256,8 +256,9 @@ pub fn generate_c11(thorough: bool, seed: u64, em: &mut Emitter) {
     }
     // (ii) enforcement: tokens satisfying all constraints and tokens violating exactly one
     let n = if thorough { policies.len() } else { 300 };
-    let t = now();
     for i in 0..n {
+        // sampled per policy: the +-30 s margins below must hold when the case is executed, however long the run takes
+        let t = now();
         let mut p = if thorough { policies[i].clone() } else { r.pick(&policies).clone() };
         if r.chance(1, 3) {
             p["validate_nbf"] = json!(true); // not reachable through the builder, but a public field
